@@ -297,7 +297,11 @@ func (f *genesisFam) Gen(r *hx.Run) {
 				r.Hist(fmt.Sprintf("partial-refused.%s.%d", ri.name, i))
 			}
 		}
-		for k := 0; k < nPer; k++ {
+		nCasesRouter := nPer
+		if len(variants) > nCasesRouter {
+			nCasesRouter = len(variants) // every accepted genesis shape is the FIRST installation of a chain at least once
+		}
+		for k := 0; k < nCasesRouter; k++ {
 			id++
 			r.Case(fmt.Sprintf("%s-%d", ri.name, id))
 			rng := r.Rng
@@ -317,6 +321,7 @@ func (f *genesisFam) Gen(r *hx.Run) {
 			}
 			regd := map[uint64]bool{}
 			inst := map[uint64]bool{}
+			anyInstall := false
 			steps := 6 + rng.Intn(8)
 			for s := 0; s < steps; s++ {
 				ch := chains[rng.Intn(2)]
@@ -328,18 +333,25 @@ func (f *genesisFam) Gen(r *hx.Run) {
 				switch x := rng.Intn(10); {
 				case x < 7:
 					g := fmt.Sprint(variants[rng.Intn(len(variants))])
-					if k%2 == 1 && !inst[ch] && len(variants) > 2 {
-						g = fmt.Sprint(variants[2+rng.Intn(len(variants)-2)]) // first installation with an unusual genesis
+					if !anyInstall {
+						// the first installation of the case goes through the variants in turn (ordinary, height 0, extreme and
+						// unusual content, accepted partial records), so that each shape is followed by a different genesis
+						g = fmt.Sprint(variants[k%len(variants)])
 					}
-					if rng.Chance(1, 8) {
+					if anyInstall && rng.Chance(1, 8) {
 						g = "bad"
-					} else if len(refused) > 0 && rng.Chance(1, 5) {
+					} else if anyInstall && len(refused) > 0 && rng.Chance(1, 5) {
 						g = refused[rng.Intn(len(refused))]
 					}
 					signer := "op"
-					if rng.Chance(1, 6) {
+					if anyInstall && rng.Chance(1, 6) {
 						signer = []string{"-", "1", "2,3"}[rng.Intn(3)]
 					}
+					if !regd[ch] {
+						r.Do(fmt.Sprintf("reg %d %s", ch, ri.name))
+						regd[ch] = true
+					}
+					anyInstall = true
 					res := r.Do(fmt.Sprintf("install n=%d s=%s chain=%d g=%s", nonce, signer, ch, g))
 					out := strings.Fields(res)[0]
 					r.Nontrivial(fmt.Sprintf("%s/%s/%v/%s", ri.name, out, inst[ch], g))
